@@ -139,7 +139,7 @@ def _oracle(src, name):
     if sym.is_free():
         return "closure"
     if sym.is_global():
-        return "external" if not sym.is_assigned() else "global-assigned"
+        return "external" if not (sym.is_assigned() or sym.is_imported()) else "global-assigned"
     if sym.is_local():
         return "body"
     return None
